@@ -166,6 +166,10 @@ pub fn gen_traps(a: &Args, out: &mut Out) {
         let real = chance(&mut rng, 50);
         let mut m = M::new(1 + k, known(pick(&mut rng, &[0u16, 0xFFFF, 0x5A5A]), real, chance(&mut rng, 50)), out);
         let vect: u16 = [0x20u16, 0x21, 0x22, 0x23, 0x24, 0x25][(k % 6) as usize];
+        // some routines are interrupted (once to three times, anywhere) by a handler that itself prints
+        // through the OS: the handler's character '#' is kept out of everything the routine handles
+        let with_int = vect != 0x25 && chance(&mut rng, 30);
+        let avoid = |b: u16| -> u16 { if with_int && (b & 0xFF) == 0x23 { b ^ 1 } else { b } };
         let pc = 0x3000 + rng.random_range(0..0x40u16);
         // the string argument
         let straddr = 0x4000 + rng.random_range(0..0x100u16);
@@ -175,7 +179,7 @@ pub fn gen_traps(a: &Args, out: &mut Out) {
         let mut pokes: Vec<(u16, Word)> = vec![(pc, word(0xF000 | vect, 0xFFFF)), (pc + 1, word(0xF025, 0xFFFF))];
         if vect == 0x24 {
             // packed: bytes 1..=255, odd and even lengths
-            let bytes: Vec<u8> = (0..len).map(|_| rng.random_range(1..=255u8)).collect();
+            let bytes: Vec<u8> = (0..len).map(|_| avoid(rng.random_range(1..=255u16)) as u8).collect();
             let mut i = 0;
             let mut addr = straddr;
             while i < bytes.len() {
@@ -188,7 +192,7 @@ pub fn gen_traps(a: &Args, out: &mut Out) {
             else if chance(&mut rng, 50) { pokes.push((addr, word(rng.random(), 0xFFFF))); }   // garbage after the terminating high byte
         } else {
             for i in 0..len {
-                let w = if chance(&mut rng, 70) { rng.random_range(1..=255u16) } else { rng.random_range(1..=0xFFFFu16) };
+                let w = avoid(if chance(&mut rng, 70) { rng.random_range(1..=255u16) } else { rng.random_range(1..=0xFFFFu16) });
                 pokes.push((straddr + i as u16, word(w, 0xFFFF)));
             }
             pokes.push((straddr + len as u16, word(0, 0xFFFF)));
@@ -199,26 +203,34 @@ pub fn gen_traps(a: &Args, out: &mut Out) {
         for r in 1..6u8 { let x = word(rng.random(), 0xFFFF); m.set_reg(out, r, x); }
         m.set_reg(out, 7, word(rng.random(), 0xFFFF));
         m.set_reg(out, 6, word(0xF000 + rng.random_range(0..0x100u16), 0xFFFF));
-        let r0 = if vect == 0x22 || vect == 0x24 { straddr } else { rng.random() };
+        let r0 = if vect == 0x22 || vect == 0x24 { straddr } else { avoid(rng.random()) };
         m.set_reg(out, 0, word(r0, 0xFFFF));
         m.set_psr(out, 0x8000 | pick(&mut rng, &[1u16, 2, 4]) | (rng.random_range(0..3u16) << 8));
         let nk = if vect == 0x20 || vect == 0x23 { rng.random_range(1..4) } else { rng.random_range(0..3) };
-        let ks: Vec<u8> = (0..nk).map(|_| rng.random()).collect();
+        let ks: Vec<u8> = (0..nk).map(|_| avoid(rng.random::<u8>() as u16) as u8).collect();
         m.keys(out, &ks);
-        m.add_intfn(out);
+        let slot = m.add_intfn(out);
+        let fire: Vec<u32> = if with_int { (0..rng.random_range(1..4)).map(|_| rng.random_range(1..match vect { 0x23 => 260, 0x22 | 0x24 => 12 + 10 * len as u32, _ => 14 })).collect() } else { vec![] };
+        let iprio = rng.random_range(3..8u8);
+        if with_int {
+            let handler = assemble_src(INT_HANDLER_OUT);
+            m.load(out, &handler);
+            m.set_mems(out, &[(0x190, word(0x1100, 0xFFFF))]);
+        }
         m.set_pc(out, pc);
         m.mark(out);
         if vect == 0x25 {
             m.run_call(out, "run", 0, &[], 400);
             m.halted(out);
         } else {
-            // a busy window: the display and/or keyboard buffer is held by someone else for the first
-            // steps of the routine (it must wait, not skip the status poll)
-            // The window may begin at any step, except right at a data access (LDI/STI): grabbing the lock
-            // between a status poll that said "ready" and the data access is the known finding of C33.
-            let (sd, kd): (u32, u32) = if chance(&mut rng, 50) { (rng.random_range(1..140), rng.random_range(3..70)) } else { (0, 0) };
-            let (sk, kk): (u32, u32) = if chance(&mut rng, 30) { (rng.random_range(1..140), rng.random_range(3..70)) } else { (0, 0) };
-            let (mut left_d, mut left_k, mut done_d, mut done_k) = (0u32, 0u32, kd == 0, kk == 0);
+            // busy windows: the display and/or keyboard buffer is held by someone else again and again while
+            // the routine runs (it must wait, not skip the status poll; every phase of the routine meets one).
+            // A window may begin at any step, except right at a data access (LDI/STI): grabbing the lock
+            // between a status poll that said "ready" and the data access is the known finding of C33.  (Not
+            // together with an interrupt, which could separate a poll from its access by any number of steps.)
+            let busy_d = !with_int && chance(&mut rng, if vect == 0x23 { 80 } else { 50 });
+            let busy_k = !with_int && chance(&mut rng, 30);
+            let (mut left_d, mut left_k) = (0u32, 0u32);
             let mut steps = 0;
             let mut since_ldi = 10u32;
             loop {
@@ -226,15 +238,16 @@ pub fn gen_traps(a: &Args, out: &mut Out) {
                 let op = m.sim.mem[m.sim.pc].get() >> 12;
                 // not between a status poll (LDI) and the data access that follows it two steps later
                 let unsafe_now = op == 0xB || since_ldi < 3;
-                if !done_d && steps >= sd && !unsafe_now { left_d = kd; done_d = true; }
-                if !done_k && steps >= sk && !unsafe_now { left_k = kk; done_k = true; }
+                if busy_d && left_d == 0 && !unsafe_now && chance(&mut rng, 8) { left_d = rng.random_range(3..50); }
+                if busy_k && left_k == 0 && !unsafe_now && chance(&mut rng, 3) { left_k = rng.random_range(3..50); }
                 since_ldi = if op == 0xA { 0 } else { since_ldi + 1 };
+                m.set_int(slot, if fire.contains(&steps) { IntCmd { k: 1, vect: 0x90, prio: iprio } } else { IntCmd::default() });
                 let r = m.step_locks(out, if left_k > 0 { 1 } else { 0 }, if left_d > 0 { 1 } else { 0 });
                 left_d = left_d.saturating_sub(1); left_k = left_k.saturating_sub(1);
                 if r != "ok" || steps > 3000 { break; }
                 if m.sim.pc == pc + 1 && !m.sim.psr().privileged() { break; }
             }
-            m.trapdone(out, vect, prompt);
+            m.trapdone(out, vect, prompt, if with_int { 0x23 } else { -1 });
         }
         m.end(out);
     }
